@@ -1,12 +1,17 @@
 """Property id -> check function."""
 import json
 
-from . import props_value
+from . import props_value, props_obs
 
 CHECKS = {
     "C01": props_value.check_C01,
     "C03": props_value.check_C03,
+    "C04": props_obs.check_C04,
+    "C06": props_obs.check_C06,
     "C07": props_value.check_C07,
+    "C10": props_obs.check_C10,
+    "C11": props_obs.check_C11,
+    "C13": props_obs.check_C13,
 }
 
 
